@@ -393,13 +393,11 @@ def run(chk):
     # ---- R01.6 sibling evaluators
     ev = chk.repo.func(coef.OR, "OptimizedResult.eval")
     ps = method(chk, dm, "_predict_submodel")
-    a = _normalise_eval(ev, {"self.model_key": "MK", "self.x": "X", "self.T_min": "TMIN", "self.T_max": "TMAX", "self.T_min_seg": "TMINSEG", "self.T_max_seg": "TMAXSEG", "self.f_unc": "FUNC"})
-    b = _normalise_eval(ps, {"submodel.coefficients.model_key": "MK", "submodel.coefficients.to_np_array()": "X", "submodel.temperature_constraints['T_min']": "TMIN",
-                             "submodel.temperature_constraints['T_max']": "TMAX", "submodel.temperature_constraints['T_min_seg']": "TMINSEG",
-                             "submodel.temperature_constraints['T_max_seg']": "TMAXSEG", "submodel.f_unc": "FUNC", "T.astype(np.float64)": "T"})
-    diff = [(x, y) for x, y in zip(a, b) if x != y] + ([("<length>", f"{len(a)} vs {len(b)}")] if len(a) != len(b) else [])
-    r6.require(not diff and len(a) >= 6, f"{ps.key}~{ev.key}", ps.where(),
-               f"the stored-model evaluator and the fitted-component evaluator differ: {diff[:2]}", sample={"statements_compared": len(a)})
+    from rules.evaluators import evaluator_outcomes
+    oa, ob_ = evaluator_outcomes(chk, ps, "stored"), evaluator_outcomes(chk, ev, "fitted")
+    diff = [(mk, {k_: (oa[mk].get(k_), ob_[mk].get(k_)) for k_ in set(oa[mk]) | set(ob_[mk]) if oa[mk].get(k_) != ob_[mk].get(k_)}) for mk in oa if oa[mk] != ob_[mk]]
+    r6.require(not diff, f"{ps.key}~{ev.key}", ps.where(),
+               f"the stored-model evaluator and the fitted-component evaluator differ (interpreted on the same abstract component for every model key): {str(diff[:1])[:400]}", sample={"model_keys_compared": len(oa)})
     # ---- R01.7
     coef.check_conventions(chk, r7)
     # ---- R01.9: the wrappers that turn stored coefficients into the evaluated curve (same function as C11/R11.4)
